@@ -1095,6 +1095,46 @@ def rule_function_scope(ctx, ix):
             ctx.ok("C06.function-scope", key)
 
 
+def rule_single_pipeline(ctx, ix):
+    """The C text (CLI / generate_code) and the LLVM module (evaluate / TensorMethod) must be printed from the
+    SAME IR: both consumers obtain their module from generate_module_tensora, so every IR-to-IR pass (the
+    peephole optimiser) has to be applied inside it.  A pass applied by only one consumer makes the two back
+    ends print different programs (the optimiser's rewrites are exact on finite values only)."""
+    ctx.rule("C06.single-pipeline", "IR-to-IR passes are applied in the shared generator entry, not by one consumer", min_instances=1)
+    shared = "tensora.generate._tensora.generate_module_tensora"
+    passes = {f.name for q, f in ix.funcs.items() if f.module == "tensora.ir._peephole" and q == f"tensora.ir._peephole.{f.name}" and f.name.startswith("peephole")}
+    n = 0
+    in_shared = False
+    for q, f in ix.funcs.items():
+        if f.module.startswith("tensora.ir."):
+            continue
+        for call in ix.calls_in(f):
+            name = ast.unparse(call.func).split(".")[-1]
+            if name in passes:
+                n += 1
+                ctx.instance("C06.single-pipeline")
+                key = f"{ix.rel(f.module)}:{q.split(f.module + '.', 1)[-1]}:{ast.unparse(call)[:50]}"
+                if q == shared:
+                    in_shared = True
+                    ctx.ok("C06.single-pipeline", key)
+                else:
+                    ctx.fail("C06.single-pipeline", key, "an IR-to-IR pass is applied outside generate_module_tensora: the other consumer of the module (CLI text vs evaluate's JIT) prints the untransformed program")
+    ctx.instance("C06.single-pipeline")
+    if in_shared:
+        ctx.ok("C06.single-pipeline", "generate/_tensora.py:generate_module_tensora applies the optimiser")
+    else:
+        ctx.fail("C06.single-pipeline", "generate/_tensora.py:generate_module_tensora applies the optimiser", "the shared generator entry no longer optimises the module it returns: consumers that optimise themselves and consumers that do not print different programs")
+    # both consumers really take their module from the shared entry
+    for consumer, label in (("tensora.generate._base.generate_code", "CLI / generate_code"), ("tensora.compile._tensor_method.TensorMethod.__init__", "evaluate / TensorMethod")):
+        ctx.instance("C06.single-pipeline")
+        f = ix.funcs.get(consumer)
+        ok = f is not None and any(ast.unparse(c.func).split(".")[-1] in ("generate_module_tensora", "generate_module") for c in ix.calls_in(f))
+        if ok:
+            ctx.ok("C06.single-pipeline", f"{label} obtains its module from the shared generator")
+        else:
+            ctx.fail("C06.single-pipeline", f"{label} obtains its module from the shared generator", "this consumer does not call generate_module_tensora")
+
+
 def run(ctx):
     ix = SourceIndex(ctx.src)
     collect_c_tuples(ix)
@@ -1108,4 +1148,5 @@ def run(ctx):
     rule_literals(ctx, ix)
     rule_hoisting(ctx, ix)
     rule_function_scope(ctx, ix)
+    rule_single_pipeline(ctx, ix)
     return ix
